@@ -71,3 +71,88 @@ def main(fn, *args):
     r = globals()[fn](*args)
     print('REPRODUCED' if r else 'not reproduced')
     sys.exit(1 if r else 0)
+
+
+def _ref_decode(b):
+    """CPython's rule (tokenize.detect_encoding + decode), BOM kept as U+FEFF; None = CPython cannot decode"""
+    import io
+    import tokenize
+    try:
+        enc, _ = tokenize.detect_encoding(io.BytesIO(b).readline)
+    except SyntaxError:
+        return None
+    try:
+        return b.decode('utf-8' if enc == 'utf-8-sig' else enc)
+    except (UnicodeDecodeError, LookupError):
+        return None
+
+
+def c15_decode(w, payload=b'\n\xc3\xa9\n'):
+    """w: ASCII text of the first two lines; the file is w + payload"""
+    from parso import python_bytes_to_unicode
+    b = w.encode('latin-1') + payload
+    ref = _ref_decode(b)
+    if ref is None:
+        print('CPython cannot determine the encoding / decode: outside the claim')
+        return False
+    try:
+        got = python_bytes_to_unicode(b)
+    except Exception as e:
+        print('parso raised %r, CPython decodes to %r' % (e, ref[:60]))
+        return True
+    print('parso %r | CPython %r' % (got[:60], ref[:60]))
+    return got != ref
+
+
+def c10_number(w, python):
+    """number literal w: one NUMBER token for the reference tokenizer iff one NUMBER token for parso"""
+    import subprocess
+    import sys
+    from parso.python.tokenize import tokenize
+    from parso.python.token import PythonTokenTypes as T
+    code = ('import tokenize, io, sys\n'
+            'try:\n    t = list(tokenize.generate_tokens(io.StringIO(%r + "\\n").readline))\n'
+            '    print(int(t[0].type == tokenize.NUMBER and t[0].string == %r))\n'
+            'except Exception as e:\n    print(0)\n' % (w, w))
+    ref = subprocess.run([python, '-c', code], capture_output=True, text=True).stdout.strip() == '1'
+    v = subprocess.run([python, '-c', 'import sys;print(sys.version_info[0], sys.version_info[1])'], capture_output=True, text=True).stdout.split()
+    t = list(tokenize(w + '\n', version_info=(int(v[0]), int(v[1]))))
+    mine = t[0].type == T.NUMBER and t[0].string == w
+    print('literal %r: reference NUMBER=%s parso NUMBER=%s' % (w, ref, mine))
+    return ref != mine
+
+
+def c10_operator(w, v):
+    tc = _tc(v)
+    m = tc.pseudo_token.match(w)
+    print('operator %r matched as %r' % (w, m.group(2) if m else None))
+    return m is None or m.group(2) != w
+
+
+def c10_indent(w1, w2):
+    """program `if x:\\n<w1>y\\n<w2>z\\n`: CPython tokenizes without error; does parso see the same INDENT/DEDENT structure?"""
+    import io
+    import tokenize as ref
+    from parso.python.tokenize import tokenize
+    from parso.python.token import PythonTokenTypes as T
+    src = 'if x:\n%sy\n%sz\n' % (w1, w2)
+    if not w1:
+        return False
+    try:
+        rt = [t.type for t in ref.generate_tokens(io.StringIO(src).readline)]
+    except Exception as e:
+        print('reference rejects %r: %r' % (src, e))
+        return False
+    r_ind = [('I' if t == ref.INDENT else 'D') for t in rt if t in (ref.INDENT, ref.DEDENT)]
+    mine = list(tokenize(src, version_info=(3, 12)))
+    m_ind = [('I' if t.type == T.INDENT else ('D' if t.type == T.DEDENT else 'E')) for t in mine
+             if t.type in (T.INDENT, T.DEDENT, T.ERROR_DEDENT)]
+    print('source %r: reference %s parso %s' % (src, r_ind, m_ind))
+    return r_ind != m_ind
+
+
+def c10_name_char(w, v):
+    tc = _tc(v)
+    m = tc.pseudo_token.match('a' + w)
+    print('a+%r is an identifier: %s; matched as %r' % (w, ('a' + w).isidentifier(), m.group(2) if m else None))
+    return ('a' + w).isidentifier() and (m is None or m.group(2) != 'a' + w)
